@@ -27,6 +27,9 @@ pub enum COp {
     SeekCur(i64),
     SetPos(u64),
     Flush,
+    ReadToEnd,
+    ReadExact(usize),
+    WriteAll(Vec<u8>),
 }
 
 pub fn parse_cops(s: &str) -> Option<Vec<COp>> {
@@ -47,6 +50,9 @@ pub fn parse_cops(s: &str) -> Option<Vec<COp>> {
             "sc" => COp::SeekCur(a.parse().ok()?),
             "p" => COp::SetPos(a.parse().ok()?),
             "f" => COp::Flush,
+            "ra" => COp::ReadToEnd,
+            "rx" => COp::ReadExact(a.parse().ok()?),
+            "wa" => COp::WriteAll(crate::term::unhex(a)),
             _ => return None,
         });
     }
@@ -120,6 +126,25 @@ fn run_cur<C: Cur>(c: &mut C, ops: &[COp]) -> String {
                 Ok(()) => "u".into(),
                 Err(e) => io_err(&e),
             },
+            COp::ReadToEnd => {
+                let mut buf = vec![];
+                match c.read_to_end(&mut buf) {
+                    Ok(k) if k == buf.len() => format!("b{}", crate::term::hex(&buf)),
+                    Ok(k) => format!("count{}of{}", k, buf.len()),
+                    Err(e) => io_err(&e),
+                }
+            }
+            COp::ReadExact(n) => {
+                let mut buf = vec![0xEEu8; *n];
+                match c.read_exact(&mut buf) {
+                    Ok(()) => format!("b{}", crate::term::hex(&buf)),
+                    Err(e) => io_err(&e),
+                }
+            }
+            COp::WriteAll(b) => match c.write_all(b) {
+                Ok(()) => "u".into(),
+                Err(e) => io_err(&e),
+            },
         });
         match r {
             Some(s) => outs.push(s),
@@ -162,6 +187,64 @@ pub struct Wrap<A> {
 pub enum WrapE<A> {
     Held(u8, A),
     Empty,
+}
+
+thread_local! {
+    /// what the destructor of the last dropped `Journal` computed from its entries
+    pub static DROP_SUM: std::cell::Cell<Option<u64>> = const { std::cell::Cell::new(None) };
+}
+
+/// A structure whose destructor reads its (possibly borrowed) data: the backing memory of a loaded
+/// `Journal<&[u64]>` must still be there when the structure is dropped.
+#[derive(Epserde, Debug)]
+pub struct Journal<A: AsRef<[u64]>> {
+    pub entries: A,
+    pub id: u32,
+}
+pub fn journal_sum(e: &[u64]) -> u64 {
+    e.iter().fold(17u64, |a, b| a.wrapping_mul(31).wrapping_add(*b))
+}
+impl<A: AsRef<[u64]>> Drop for Journal<A> {
+    fn drop(&mut self) {
+        let s = journal_sum(self.entries.as_ref());
+        DROP_SUM.with(|c| c.set(Some(s)));
+    }
+}
+
+/// `dropcheck <loader> <n>`: store a journal of n entries, load it, drop the loaded case, and report whether the
+/// destructor of the loaded structure still saw the stored entries.
+pub fn dropcheck(loader: &str, n: usize) -> String {
+    use std::sync::atomic::Ordering::SeqCst;
+    let j = Journal { entries: (0..n as u64).map(|k| k.wrapping_mul(0x9E3779B97F4A7C15) | 1).collect::<Vec<u64>>(), id: 7 };
+    let expected = journal_sum(&j.entries);
+    let path = tmp_path("drop");
+    if j.store(&path).is_err() {
+        return "dropcheck store-err".into();
+    }
+    crate::alloc::POISON.store(1, SeqCst);
+    DROP_SUM.with(|c| c.set(None));
+    let loaded = crate::catch(|| -> Result<(), String> {
+        match loader {
+            "full" => drop(<Journal<Vec<u64>>>::load_full(&path).map_err(|e| e.to_string())?),
+            "mem" => drop(<Journal<Vec<u64>>>::load_mem(&path).map_err(|e| e.to_string())?),
+            #[cfg(feature = "mmap")]
+            "mmap" => drop(<Journal<Vec<u64>>>::load_mmap(&path, Flags::empty()).map_err(|e| e.to_string())?),
+            #[cfg(feature = "mmap")]
+            "map" => drop(<Journal<Vec<u64>>>::mmap(&path, Flags::empty()).map_err(|e| e.to_string())?),
+            _ => return Err("badloader".into()),
+        }
+        Ok(())
+    });
+    crate::alloc::POISON.store(0, SeqCst);
+    let _ = std::fs::remove_file(&path);
+    let got = DROP_SUM.with(|c| c.get());
+    match (loaded, got) {
+        (None, _) => "dropcheck panic".into(),
+        (Some(Err(e)), _) => format!("dropcheck err {}", e.replace(' ', "_")),
+        (Some(Ok(())), Some(s)) if s == expected => "dropcheck ok".into(),
+        (Some(Ok(())), Some(s)) => format!("dropcheck stale expected={} seen={}", expected, s),
+        (Some(Ok(())), None) => "dropcheck no-destructor".into(),
+    }
 }
 
 /// An iterator that announces a length of its own choosing.
@@ -527,11 +610,22 @@ pub fn flags_of(bits: u32) -> Flags {
 /// Show a loaded case: contents through Deref (offsets relative to the backing region), the region
 /// (length, address modulo 4096, zero tail), and the same contents after moving / boxing the case
 /// and reading it from other threads.
-pub fn show_case<S: crate::Show + Send + Sync>(case: MemCase<S>, file_len: usize) -> String {
+pub fn show_case<S: crate::Show + Send + Sync>(case: MemCase<S>, file_len: usize, scribble: Option<&std::path::Path>) -> String {
     let (start, len) = case.verif_backend_range().unwrap_or((0, 0));
     crate::BASE.with(|b| b.set((start, len)));
     let mut s0 = String::new();
     (*case).show(&mut s0);
+    // the copying loaders own their region: overwriting the file afterwards (in place, same length) must not be seen
+    let mut owned = true;
+    if let Some(p) = scribble {
+        use std::io::Write;
+        if let Ok(mut f) = std::fs::OpenOptions::new().write(true).open(p) {
+            let _ = f.write_all(&vec![0xFFu8; file_len]);
+        }
+        let mut again = String::new();
+        (*case).show(&mut again);
+        owned = again == s0;
+    }
     let mut s1 = String::new();
     case.as_ref().show(&mut s1);
     // tail bytes of the region
@@ -578,7 +672,7 @@ pub fn show_case<S: crate::Show + Send + Sync>(case: MemCase<S>, file_len: usize
         .join()
         .unwrap_or_default()
     });
-    let stable = s1 == s0 && s2 == s0 && ok_threads && sent == s0;
+    let stable = s1 == s0 && s2 == s0 && ok_threads && sent == s0 && owned;
     format!("ok {} region={} basemod={} tailzero={} moved={} kind={}", s0, len, start % 4096 % 64, tail_zero, stable, kind)
 }
 
@@ -632,19 +726,19 @@ where
         "mem" => match crate::catch(|| T::load_mem(&path)) {
             None => "panic".to_string(),
             Some(Err(e)) => anyhow_err(&e),
-            Some(Ok(c)) => show_case(c, file_len),
+            Some(Ok(c)) => show_case(c, file_len, Some(&real_path)),
         },
         #[cfg(feature = "mmap")]
         "mmap" => match crate::catch(|| T::load_mmap(&path, flags_of(flags))) {
             None => "panic".to_string(),
             Some(Err(e)) => anyhow_err(&e),
-            Some(Ok(c)) => show_case(c, file_len),
+            Some(Ok(c)) => show_case(c, file_len, Some(&real_path)),
         },
         #[cfg(feature = "mmap")]
         "map" => match crate::catch(|| T::mmap(&path, flags_of(flags))) {
             None => "panic".to_string(),
             Some(Err(e)) => anyhow_err(&e),
-            Some(Ok(c)) => show_case(c, file_len),
+            Some(Ok(c)) => show_case(c, file_len, None),
         },
         _ => "badloader".to_string(),
     };
